@@ -28,6 +28,8 @@ def parse_impl(line):
     """'ok w w w | reqs=.. consumed=k [EXHAUSTED]' -> (status, words, tail)"""
     head, _, tail = line.partition("|")
     t = head.split()
+    noise = [x for x in t if x.startswith("noise=")]
+    if noise: tail = tail.strip() + " " + noise[0]; t = [x for x in t if not x.startswith("noise=")]
     return (t[0] if t else "?"), [int(x) for x in t[1:]], tail.strip()
 
 def verdict(dist, words, ps, n):
